@@ -195,10 +195,16 @@ def fetcherOf (table : List (String × Fetched)) : Fetcher := fun url =>
   | some e => e.2
   | none => .raises
 
+/-- `(optimize quality|none dpi|none)` -/
+def opts? : Sx → Option Opts
+  | .list [opt, q, dpi] => do pure ⟨← opt.bool?, ← optNat? q, ← optNat? dpi⟩
+  | _ => none
+
+/-- `(url forced|- orientation (optimize quality dpi))` -/
 def call? : Sx → Option Call
-  | .list [u, f, o] => do
+  | .list [u, f, o, opts] => do
     let f ← f.atom?
-    pure ⟨← u.atom?, if f = "-" then "" else f, ← orientation? o⟩
+    pure ⟨← u.atom?, if f = "-" then "" else f, ← orientation? o, ← opts? opts⟩
   | _ => none
 
 def showOutFmt : OutFmt → String
@@ -225,16 +231,15 @@ def showEntry : Entry → String
   | .image i => showImg i
   | .bytes p => "bytes=" ++ showPayload p
 
-/-- `imgcache (optimize quality dpi) (resource…) (call…) insertion|sorted` →
+/-- `imgcache (resource…) (call…) insertion|sorted` (every call carries its image options) →
 `<value> … | keys <key>=<entry> … | fetched <url> …` (atoms separated by `;`). -/
 def handleImages (cmd : String) (args : List Sx) : Option String :=
   match cmd, args with
-  | "imgcache", [.list [opt, q, dpi], .list rs, .list cs, order] => do
+  | "imgcache", [.list rs, .list cs, order] => do
     let order ← order.atom?
-    let opts : Opts := ⟨← opt.bool?, ← optNat? q, ← optNat? dpi⟩
     let table ← allSome resource? rs
     let calls ← allSome call? cs
-    let results := runCalls (fetcherOf table) opts [] calls
+    let results := runCalls (fetcherOf table) [] calls
     let values := results.map (fun r => match r.value with
       | .ok e => showEntry e
       | .error e => errClass e)
@@ -246,7 +251,7 @@ def handleImages (cmd : String) (args : List Sx) : Option String :=
     let entries := if order = "sorted" then entries.mergeSort (fun a b => decide (a ≤ b)) else entries
     pure (";".intercalate values ++ " | keys " ++ ";".intercalate entries
       ++ " | fetched " ++ ";".intercalate fetched)
-  | "imgkey", [u, o] => do pure (keyStr (← u.atom?) (← orientation? o))
+  | "imgkey", [u, o, opts] => do pure (keyStr (← u.atom?) (← orientation? o) (← opts? opts))
   | "diskops", ops => do
     -- `(set k b n)` bytes number n, `(set k o n)` an object, `(set k none)`, `(get k)`, `(has k)`
     let op? : Sx → Option Wp.DiskCache.Op := fun x => match x with
@@ -387,11 +392,9 @@ def handleWriteState (cmd : String) (args : List Sx) : Option String :=
       | Sx.list [.list names, .list links] => do
         pure ((← allSome Sx.atom? names), (← allSome boxLink? links))
       | _ => none) ws
-    let step := fun (acc : List String × Annots × Nat) (w : List String × List BoxLink) =>
-      let r := write acc.2.2 w.1 w.2 acc.2.1
-      (acc.1 ++ [",".intercalate (r.1.map (fun t => toString t.1 ++ ":" ++ toString t.2))], r.2, acc.2.2 + 1)
-    let out := parsed.foldl step ([], [], 1)
-    pure (" | ".intercalate out.1)
+    let out := (runWrites 1 [] parsed).map (fun tags =>
+      ",".intercalate (tags.map (fun t => toString t.1 ++ ":" ++ toString t.2)))
+    pure (" | ".intercalate out)
   | "xobjects", w :: h :: targets => do
     let target? : Sx → Option (Option (Nat × Nat)) := fun t => match t with
       | .atom "none" => some none
